@@ -26,9 +26,20 @@ def run_property(prop: str, model: Model, tier: str) -> Ctx:
     if prop not in REGISTRY:
         raise AnalysisError(f"no check registered for {prop}")
     ctx = Ctx(model, prop, tier)
-    REGISTRY[prop](ctx)
-    if not ctx.violations():
-        # a recognised violation is a verdict; only a silent run must prove it was not blind
+    from .core import known_match, load_known_findings
+
+    known = load_known_findings()
+    try:
+        REGISTRY[prop](ctx)
+    except AnalysisError as exc:
+        # a violation that was established before a later part of the analysis lost its anchor stays a verdict (reported with
+        # exit 1); without one the run is analysis-broken (exit 2)
+        if not [f for f in ctx.violations() if known_match(prop, f, known) is None]:
+            raise
+        ctx.info("ANALYSIS", "incomplete", None, f"a later part of the analysis could not be carried out: {exc}")
+    if not [f for f in ctx.violations() if known_match(prop, f, known) is None]:
+        # a recognised (new) violation is a verdict; a run that reports nothing new must prove it was not blind — listed
+        # known findings do not excuse it from that
         ctx.check_minimums()
     return ctx
 
